@@ -48,7 +48,7 @@ impl Command for TextWindow {
             }
 
             9 => {
-                self.size = ch.to_digit(36).unwrap() as i32;
+                parse_base_36(&mut self.size, ch)?;
                 Ok(false)
             }
 
